@@ -49,6 +49,8 @@ def main():
         open(demo, "w").write(dtxt + "\n#[test]\nfn seed_demo_main() { main() }\n")
     env = dict(os.environ, CARGO_NET_OFFLINE="true", CARGO_TARGET_DIR="/tmp/seedwt/target-" + name)
     env.pop("RUSTFLAGS", None)
+    if "verif_hooks" in dtxt:
+        env["RUSTFLAGS"] = "--cfg substrate_fixed_verif"      # the demonstration reads the hook counter
     os.makedirs(os.path.join(wt, "tests"), exist_ok=True)
     shutil.copy(demo, os.path.join(wt, "tests", "seed_demo.rs"))
     ran = []
@@ -63,6 +65,7 @@ def main():
     demo_mut_fails = ("test result: FAILED" in out1) or ("error" in out1 and "test result: ok" not in out1)
     ran.append("changed: cargo test --offline --test seed_demo -> %s" % ("fails" if demo_mut_fails else "PASSES"))
     os.unlink(os.path.join(wt, "tests", "seed_demo.rs"))
+    env.pop("RUSTFLAGS", None)
     rc2, out2 = sh("cargo test --workspace --no-fail-fast --offline 2>&1 | grep 'test result'", cwd=wt, env=env)
     suite_ok = out2.count("test result: ok") >= 2 and "FAILED" not in out2
     ran.append("changed: cargo test --workspace --offline -> %s" % out2.strip().replace("\n", " | "))
